@@ -273,6 +273,22 @@ class Evaluator:
             if start.file != end.file or start.key() > end.key():
                 raise RaisedInternal("Span invariant violated by constructed result")
             return SpanV(start, end)
+        # a helper method of the span class called on a span value: `self._in_same_file(x)` -- interpreted like the dunder methods
+        if isinstance(f, ast.Attribute) and f.attr in self.methods and not e.keywords:
+            recv = self.ev(f.value, env)
+            if isinstance(recv, SpanV):
+                fn = self.methods[f.attr]
+                names = [x.arg for x in fn.args.posonlyargs + fn.args.args]
+                vals = [self.ev(a, env) for a in e.args]
+                if len(vals) != len(names) - 1:
+                    raise Unsupported(f"arity of helper {f.attr}")
+                self.depth += 1
+                if self.depth > 6:
+                    raise Unsupported("recursion too deep")
+                try:
+                    return self.run(fn, dict(zip(names, [recv, *vals])))
+                finally:
+                    self.depth -= 1
         raise Unsupported(f"call {ast.unparse(e)[:60]}")
 
 
